@@ -67,11 +67,14 @@ Definition holds_bytes (c : bytes_case) : bool :=
                     bytes_eqb (concat (map unhex (snd r))) (written_bytes (fst r) (bc_ws c))) (bc_reads c).
 
 (* ------------------------------------------------------------------ C11, scripted faults *)
+(* (the observation type and the replay are shared with the C10 buffer stream below) *)
 (* what the driver observed for one call *)
 Inductive obs :=
 | ONone                 (* internal event, nothing to observe *)
 | OOk
 | OData (hex : string)
+| OGot (n : N) (hex : string)   (* Read with an explicit buffer returned n, nil; hex = buf[:min(n, len(buf))] *)
+| ONoMem                        (* syscall.ENOMEM *)
 | OEof                  (* io.EOF *)
 | OErr                  (* an error other than io.EOF *)
 | OAnyErr               (* an error, class not compared (Write) *)
@@ -83,6 +86,9 @@ Definition obs_match (o : obs) (r : result) : bool :=
   | ONone, _ => true
   | OOk, ROk => true
   | OData h, RData p => bytes_eqb p (unhex h)
+  | OGot n h, RBuf _ (ROData n' c) => (n =? n') && bytes_eqb c (unhex h)
+  | ONoMem, RBuf _ RONoMem => true
+  | OTimeout, RBlock => true      (* the model says the call blocks for ever; holds_* judges the hang *)
   | OEof, RErr EEOF => true
   | OErr, RErr EErr => true
   | OAnyErr, RErr _ => true
@@ -126,7 +132,7 @@ Definition recv_prefix (recv : list (N * list string)) (sent : list (N * string)
   forallb (fun r => frames_prefixb (map unhex (snd r)) (written_frames (fst r) (unhex_ws sent))) recv.
 
 Definition prompt_failure (o : obs) : bool :=
-  match o with OData _ | OEof | OErr | OAnyErr | ONone => true | OOk | OTimeout | OPanic => false end.
+  match o with OData _ | OEof | OErr | OAnyErr | ONone => true | OOk | OTimeout | OPanic | OGot _ _ | ONoMem => false end.
 Definition no_hang (o : obs) : bool :=
   match o with OTimeout | OPanic => false | _ => true end.
 Definition eof_if_error (o : obs) : bool :=
@@ -143,6 +149,36 @@ Definition holds_script (c : script_case) : bool :=
   (negb (sc_orderly c) ||
    (forallb (fun eo => eof_if_error (snd eo)) (sd_events (sc_a c)) &&
     forallb (fun eo => eof_if_error (snd eo)) (sd_events (sc_b c)))).
+
+(* ------------------------------------------------------------------ C10, the caller's buffer *)
+(* one connection; rb_frames: the payloads written to it, in order (each a single frame), all queued
+   before the first Read; rb_reads: per Read the buffer's length and capacity and what came back *)
+Record readbuf_case := {
+  rb_qlen : N; rb_id : N;
+  rb_frames : list string;
+  rb_reads : list (N * N * obs) }.
+
+Definition corr_readbuf (c : readbuf_case) : bool :=
+  let ws := map (fun h => (rb_id c, unhex h)) (rb_frames c) in
+  let evs := map (fun _ => (EvReader, ONone)) (rb_frames c) ++
+             map (fun r => (EvReadB (rb_id c) true (fst (fst r)) (snd (fst r)), snd r)) (rb_reads c) in
+  fst (replay (init_mux (trunk ws) (rb_qlen c) [rb_id c]) evs).
+
+(* the property on the observation: the k-th Read took the k-th frame; it returned no more than the
+   buffer's LENGTH holds and then the whole frame, or ENOMEM and then the frame did not fit *)
+Fixpoint holds_readbuf_from (frames : list string) (reads : list (N * N * obs)) : bool :=
+  match reads, frames with
+  | [], _ => true
+  | (bl, bc, o) :: r, f :: fs =>
+      (match o with
+       | OGot n h => (n <=? bl) && (n =? lenN (unhex f)) && bytes_eqb (unhex h) (unhex f)
+       | ONoMem => bl <? lenN (unhex f)
+       | _ => false
+       end) && holds_readbuf_from fs r
+  | _ :: _, [] => false
+  end.
+Definition holds_readbuf (c : readbuf_case) : bool :=
+  forallb (fun r => fst (fst r) <=? snd (fst r)) (rb_reads c) && holds_readbuf_from (rb_frames c) (rb_reads c).
 
 (* ------------------------------------------------------------------ C11, listener wrapper *)
 Record listener_case := { lc_events : list (lev * lres); lc_conn_closed : bool }.
